@@ -555,6 +555,17 @@ var rat2p53 = ratPow2(53)
 
 const maxScale = 1100
 
+// LatticeRealVar is a real-valued location in [-2^k, 2^k] (never declared Int):
+// the bound variable of an existential obligation.
+func (s *Store) LatticeRealVar(name string, k int) *Term {
+	t := s.mk(&Term{Op: "var", Name: name, S: SReal})
+	if t.ri == nil {
+		b := ratPow2(k)
+		t.ri = &realInfo{lo: new(big.Rat).Neg(b), hi: b, s: 0, exact: true}
+	}
+	return t
+}
+
 // LatticeVar is an integer-valued float64 input in [-2^k, 2^k].
 func (s *Store) LatticeVar(name string, k int) *Term {
 	t := s.mk(&Term{Op: "var", Name: name, S: SReal, IntVar: true})
